@@ -2,7 +2,7 @@
 Engine `Ops` (C09, C10): arithmetic of `Scalar` and `Array` objects with plain numbers, numpy arrays
 and each other, written after the Python function by function.
 
-Modelled code (as it is in /repo now, repairs 82f5449, bbf2089, 12bb4de, 1e63d4c included):
+Modelled code (as it is in /repo now, repairs 82f5449, bbf2089, 12bb4de, 1e63d4c, e246554 included):
 * `barril/_util/types_.py`      `IsNumber`
 * `barril/units/_scalar.py`     `Scalar._DoOperation`, the ten operator methods
 * `barril/units/_array.py`      `Array._DoOperation` (number / ndarray branches, length check, vectorised
@@ -61,6 +61,8 @@ structure Env where
   checkCatUnit : Sym → Sym → Except ErrKind Unit
   /-- the lookups `Convert(category, from_unit, to_unit, container)` makes before it touches the values -/
   convertLookup : Sym → Sym → Sym → Except ErrKind Unit
+  /-- `GetInfo(quantity_type, unit).tobase` -/
+  toBase : Sym → Sym → Except ErrKind (Rat → Except ErrKind Rat)
 
 /-- the database of the `Conv` engine as an `Env` -/
 def Env.ofDb (db : Db) : Env where
@@ -82,6 +84,10 @@ def Env.ofDb (db : Db) : Env where
         match db.getInfo qt toU true with
         | .error e => .error e
         | .ok _ => .ok ()
+  toBase qt u :=
+    match db.getInfo qt u with
+    | .error e => .error e
+    | .ok r => .ok (fun x => if !r.ok then .error .other else r.toBase.apply x)
 
 /-- conversions applied to one operand (elementwise) -/
 abbrev Tr := Rat → Except ErrKind Rat
@@ -135,11 +141,37 @@ def mapE {α β : Type} (f : α → Except ErrKind β) : List α → Except ErrK
 
 /-! ### `_MatchQuantities` -/
 
-/-- `_ConvertMatchingExp(quantity_type, from_unit, to_unit, exp, ·, in_derived)` (repair 1e63d4c): the
-plain conversion for the same unit and for exponent 1 outside a derived quantity; inside a derived
-quantity, or with another exponent, a unit is a factor of a product and the value is scaled by the
-unit ratio `Convert(1.0) - Convert(0.0)` raised to the exponent (exponent 1 without an offset: the
-plain conversion is that scaling) -/
+/-- the unit ratio of `_ConvertMatchingExp` (repair e246554): without an offset between the two units
+(`zero = 0`) it is `Convert(1.0)`; with one it is the quotient of the increments the two units have in
+the base unit, `(from.tobase(1) - from.tobase(0)) / (to.tobase(1) - to.tobase(0))` (both `GetInfo`
+lookups first; a zero denominator is Python's `ZeroDivisionError`) -/
+def unitRatio (env : Env) (qt fromU toU : Sym) (zero : Rat) : Except ErrKind Rat :=
+  if zero == 0 then env.convert qt fromU toU 1
+  else
+    match env.toBase qt fromU with
+    | .error e => .error e
+    | .ok ft =>
+      match env.toBase qt toU with
+      | .error e => .error e
+      | .ok tt =>
+        match ft 1 with
+        | .error e => .error e
+        | .ok f1 =>
+          match ft 0 with
+          | .error e => .error e
+          | .ok f0 =>
+            match tt 1 with
+            | .error e => .error e
+            | .ok t1 =>
+              match tt 0 with
+              | .error e => .error e
+              | .ok t0 => if t1 - t0 = 0 then .error .other else .ok ((f1 - f0) / (t1 - t0))
+
+/-- `_ConvertMatchingExp(quantity_type, from_unit, to_unit, exp, ·, in_derived)` (repairs 1e63d4c,
+e246554): the plain conversion for the same unit and for exponent 1 outside a derived quantity; inside
+a derived quantity, or with another exponent, a unit is a factor of a product and the value is scaled
+by the unit ratio raised to the exponent (exponent 1 without an offset: the plain conversion is that
+scaling) -/
 def convertMatchingExp (env : Env) (qt fromU toU : Sym) (exp : Int) (inDerived : Bool) : Except ErrKind Tr :=
   if fromU == toU || (exp == 1 && !inDerived) then .ok (env.convert qt fromU toU)
   else
@@ -148,10 +180,10 @@ def convertMatchingExp (env : Env) (qt fromU toU : Sym) (exp : Int) (inDerived :
     | .ok zero =>
       if exp == 1 && zero == 0 then .ok (env.convert qt fromU toU)
       else
-        match env.convert qt fromU toU 1 with
+        match unitRatio env qt fromU toU zero with
         | .error e => .error e
-        | .ok c1 =>
-          match powInt (c1 - zero) exp with
+        | .ok ratio =>
+          match powInt ratio exp with
           | .error e => .error e
           | .ok factor => .ok (fun v => .ok (v * factor))
 
